@@ -262,7 +262,7 @@ public:
    /** The value of max() is reset to \p newMax thereby setting size()
        to \p newSize. However, if \p newSize has a value \c < \c 0 (as the
        default argument does) size() remains unchanged and max() is set
-       to MIN(size(), newMax). Hence, calling reMax() without the
+       to MAX(size(), newMax). Hence, calling reMax() without the
        default arguments, will reduce the memory consumption to a minimum.
        In no instance max() will be set to a value less than 1 (even if
        specified).
@@ -273,8 +273,8 @@ public:
       if(newSize >= 0)
          thesize = newSize;
 
-      if(newMax < newSize)
-         newMax = newSize;
+      if(newMax < thesize)
+         newMax = thesize;
 
       if(newMax < 1)
          newMax = 1;
